@@ -1,6 +1,6 @@
 (* C12 -- messages, tag names and paths reach the VCS verbatim. *)
 From Coq Require Import List Bool NArith.
-From BV Require Import Lib.PyStr Model.V2 Model.V1 Model.Vcs Gen.Tables Proofs.VcsFacts.
+From BV Require Import Lib.PyStr Model.V2 Model.V1 Model.Vcs Gen.Tables Proofs.VcsFactsC12.
 Import ListNotations.
 Local Open Scope N_scope.
 
